@@ -94,6 +94,60 @@ theorem C05_accepts (S : Schema) (ty : Nat) (u : Updater) :
       rintro ⟨⟨hgood, _⟩, _⟩
       exact hv (List.all_eq_true.mpr (fun p hp => (validPath_iff S ty p).mpr (hgood p hp)))
 
+/-- **C05_nothing_writable** (a read-only resource: writable mask NON-NIL WITHOUT PATHS — not to be
+confused with a nil writable mask, which means everything is writable).  For every schema, messages,
+update and reset mask, with `W = some []`:
+* every update mask that has at least one path is rejected with `InvalidArgument` (its paths, valid or
+  not, lie outside the empty set of writable fields);
+* an accepted write copies NOTHING from the written message, which is left as it was;
+* with an empty non-nil update mask, or without reset mask, the stored message is exactly what it
+  was; otherwise (nil update mask and a reset mask) it is the stored message with the reset mask
+  applied — so every path unrelated to the reset paths holds what it held, at any depth, with no
+  hypothesis on the trees. -/
+theorem C05_nothing_writable (S : Schema) (ty : Nat) (u : Updater) (dst src : Fields)
+    (hW : u.writable = some []) :
+    (∀ M, u.update = some M → M ≠ [] →
+      validate S ty u = .invalidArgument ∧ ∀ stored src', valueSet S ty u stored src' = .err .invalidArgument) ∧
+    (∀ r, merge S ty u dst src = some r →
+      r.src = src ∧
+      ((u.update = some [] ∨ u.reset = none) → r.dst = dst) ∧
+      (u.update ≠ some [] → resetDst u dst = some r.dst) ∧
+      ∀ p, p ≠ [] → (∀ R, u.reset = some R → Clean R ∧ Unrelated p R) →
+        r.dst.getPath p = dst.getPath p) := by
+  constructor
+  · intro M hM hne
+    cases M with
+    | nil => exact absurd rfl hne
+    | cons m ms =>
+      refine C05_rejects S ty u (m :: ms) hM (Or.inr ⟨[], hW, m, List.mem_cons_self .., ?_⟩)
+      rintro ⟨w, hw, _⟩; cases hw
+  · intro r h
+    unfold merge at h
+    simp only [hW, if_true] at h
+    by_cases hM : u.update = some []
+    · simp only [hM, if_true, Option.some.injEq] at h
+      subst h
+      exact ⟨rfl, fun _ => rfl, fun hc => absurd hM hc, fun _ _ _ => rfl⟩
+    · simp only [hM, if_false] at h
+      cases hd : resetDst u dst with
+      | none => rw [hd] at h; cases h
+      | some d' =>
+        rw [hd] at h
+        simp only [Option.map_some, Option.some.injEq] at h
+        subst h
+        refine ⟨rfl, ?_, fun _ => rfl, ?_⟩
+        · rintro (hc | hr)
+          · exact absurd hc hM
+          · unfold resetDst at hd; rw [hr] at hd; simp at hd; exact hd.symm
+        · intro p hp hR
+          unfold resetDst at hd
+          cases hr : u.reset with
+          | none => rw [hr] at hd; simp at hd; rw [hd]
+          | some R =>
+            rw [hr] at hd
+            obtain ⟨hRc, hRu⟩ := hR R hr
+            exact getPath_pruneMsg_misses p _ dst d' (misses_nestedMask hRc hp hRu) hd
+
 /-- **C05_reset** (full strength).  After a write whose update mask is not the empty mask (which, by
 `C05_empty_mask`, changes nothing), every path of the reset mask — and everything below it — is absent
 from the result: at any depth, for parent+child and duplicate reset paths, and also when nothing is
@@ -682,6 +736,16 @@ example : ¬ InsideWritable [["f", "c"]] ["f"] ∧ ¬ InsideWritable [["f", "c"]
 example : validate wSchema 0 ⟨some [["f", "c"]], some [["f"]], none⟩ = .invalidArgument ∧
     validate wSchema 0 ⟨some [["f", "c"], ["f", "d"]], some [["f"], ["g"]], none⟩ = .invalidArgument ∧
     validate wSchema 0 ⟨some [["g"]], some [["g"], ["g"]], none⟩ = .ok := by decide
+/-- `C05_nothing_writable` applies: `W = some []` rejects the valid mask `{g}`, a bare write and a
+write with an empty mask are accepted and change nothing, a bare write with reset `{g}` only resets
+`g` — and a NIL writable mask behaves differently (everything is written). -/
+example : validate wSchema 0 ⟨some [], some [["g"]], none⟩ = .invalidArgument ∧
+    (merge wSchema 0 ⟨some [], none, none⟩ wStored (.cons "g" (.sc "i9") .nil)).map (·.dst) = some wStored ∧
+    (merge wSchema 0 ⟨some [], some [], some [["g"]]⟩ wStored (.cons "g" (.sc "i9") .nil)).map (·.dst) = some wStored ∧
+    (merge wSchema 0 ⟨some [], none, some [["g"]]⟩ wStored (.cons "g" (.sc "i9") .nil)).map (·.dst.getPath ["f", "d"])
+      = some (wStored.getPath ["f", "d"]) ∧
+    (merge wSchema 0 ⟨none, none, none⟩ wStored (.cons "g" (.sc "i9") .nil)).map (·.dst)
+      = some (.cons "g" (.sc "i9") .nil) := by decide
 /-- `C05_reset` applies with nothing writable, and to parent+child reset paths. -/
 example : (merge wSchema 0 ⟨some [], none, some [["g"]]⟩ wStored .nil).map (·.dst.get "g") = some none := by decide
 example : Clean [["f"], ["f", "c"]] ∧ NonNil [["f"], ["f", "c"]] ∧
